@@ -1177,7 +1177,7 @@ class UnitValue :
         elif isnumber(v):
             return self.value > v
         else :
-            return TypeError("UnitValue can only be compared with numbers and UnitValues with the same units dimensions.")
+            raise TypeError("UnitValue can only be compared with numbers and UnitValues with the same units dimensions.")
 
     def __ge__(self, v) :
         """
@@ -1207,7 +1207,7 @@ class UnitValue :
         elif isnumber(v):
             return self.value >= v
         else :
-            return TypeError("UnitValue can only be compared with numbers and UnitValues with the same units dimensions.")
+            raise TypeError("UnitValue can only be compared with numbers and UnitValues with the same units dimensions.")
 
 
     def __lt__(self, v) :
@@ -1238,7 +1238,7 @@ class UnitValue :
         elif isnumber(v):
             return self.value < v
         else :
-            return TypeError("UnitValue can only be compared with numbers and UnitValues with the same units dimensions.")
+            raise TypeError("UnitValue can only be compared with numbers and UnitValues with the same units dimensions.")
 
     def __le__(self, v) :
         """
@@ -1268,7 +1268,7 @@ class UnitValue :
         elif isnumber(v):
             return self.value <= v
         else :
-            return TypeError("UnitValue can only be compared with numbers and UnitValues with the same units dimensions.")
+            raise TypeError("UnitValue can only be compared with numbers and UnitValues with the same units dimensions.")
 
 
     def copy(self) :
